@@ -8,19 +8,33 @@ def multi_node_inv(rng, fail=0.0):
     inv.nodes = {}
     nn = rng.randint(2, 10)
     failing = set()
+    pool = ['web', 'web-1', 'web.1', 'a', 'a.1', 'a-b', 'b', 'Z', 'z', 'n10', 'n9', 'n09', '_x', 'x_', 'é', 'aa', 'a_']
+    style = rng.choice(['plain', 'pool', 'nested', 'composed'])
+    if style == 'composed':
+        inv.compose = True
+    node_names = rng.sample(pool, min(nn, len(pool)))
+    dirs = ['', 'a', 'b', 'zz', 'a/c']
     for i in range(nn):
         roots = [n for n in names if rng.random() < 0.4]
         rng.shuffle(roots)
         apps = [rng.choice(['web', 'db', 'mon', '~web', '~a1', 'a1']) for _ in range(rng.randint(0, 3))]
         params = [(S('trace'), L(S('NODE')))]
         cl = ['sel'] + roots
+        if style == 'plain':
+            path, node_name = ('n%02d.yml' % i,), 'n%02d' % i
+        elif style == 'pool':
+            path, node_name = (node_names[i] + '.yml',), node_names[i]
+        else:
+            d = rng.choice(dirs)
+            path = tuple(x for x in d.split('/') if x) + (node_names[i] + '.yml',)
+            node_name = '.'.join(path)[:-4] if style == 'composed' else node_names[i]
         if rng.random() < fail:
-            failing.add('n%02d' % i)
+            failing.add(node_name)
             if rng.random() < 0.5:
                 cl.append('no.such.class')
             else:
                 params.append((S('loop'), S('${loop}')))
-        inv.nodes[('n%02d.yml' % i,)] = G.doc(cl, apps, ('m', params))
+        inv.nodes[path] = G.doc(cl, apps, ('m', params))
     return inv, failing
 
 
@@ -81,7 +95,7 @@ def run(tier, rng, C):
                         wc.setdefault(cl, []).append(name)
                 wa = {k2: sorted(v) for k2, v in wa.items()}
                 wc = {k2: sorted(v) for k2, v in wc.items()}
-                want_nodes = sorted(p[-1][:-4] for p in inv.nodes)
+                want_nodes = sorted(('.'.join(p)[:-4] if inv.compose else p[-1][:-4]) for p in inv.nodes)
                 if got_nodes != want_nodes:
                     bad = 'inventory nodes %s, discovered nodes %s' % (got_nodes, want_nodes)
                 elif ai != wa:
